@@ -575,7 +575,7 @@ Definition deduct_take_rate (last : Z) (als : list Asset) : M (list Asset) :=
   if last =? ZERO_TIME then set_last_claim t ;;; ret als
   else
     iv <- gets (fun s => p_interval (params s)) ;;
-    if iv =? 0 then panic P_DIV_ZERO
+    if iv =? 0 then panic P_DIV_ZERO_INTERVAL
     else
       let n := Z.quot (t - last) iv in
       '(als', coins, cnt) <- mfold als ([], [], 0) (fun (acc : list Asset * Coins * Z) a =>
